@@ -15,6 +15,14 @@ def main(tier):
     # guards that keep queries from crashing or producing NaN, as far as their shape decides it
     kernels.acos_clamp(P, rep)                 # NaN-absorbing clamp in front of acos
     rep.attempt(asserts.indexed_store_bounds, P, rep)
+    # the 2D wrapper walks the 3D result with its own counter: it stays inside the vector only if it gives every kind the width the
+    # producer gave it (a wider step reads and writes past the end for a suitable request)
+    from ..rules import layout as _layout
+
+    def _walker_in_bounds(P, rep):
+        tables, outv, counter = _layout.width_tables(P, rep)
+        _layout.wrapper2d(P, rep, counter)
+    rep.attempt(_walker_in_bounds, P, rep)
     asserts.input_indexed_elements(P, rep)     # tables indexed by numbers from the file
     segments.table_provenance(P, rep)          # per-section tables have one shape (K2): no out-of-bounds read between sections
     sib.model_families(P, rep)                 # sibling implementations agree on their guards (zero-thickness, range, sentinel tests)
